@@ -339,6 +339,20 @@ func scenario() {
 		panic(err)
 	}
 	defer os.RemoveAll(dir)
+	// a telemetry directory whose PATH contains a date (notNeeded searches the path)
+	datedDir := tag == "c07" && sc.directed == "" && rnd.Chance(3)
+	var datedBase time.Time
+	if datedDir {
+		datedBase = time.Date(2024, 1, 1, 0, 0, 0, 0, time.UTC).Add(time.Duration(rnd.Intn(300)) * day)
+		// the first Sunday..Saturday after datedBase are candidate week ends: put them all in the path
+		name := "bk"
+		for k := 1; k <= 7; k++ {
+			name += "_" + datedBase.Add(time.Duration(k)*day).Format("2006-01-02")
+		}
+		dir = filepath.Join(dir, name)
+		os.MkdirAll(dir, 0777)
+		out.Note("dir-path-contains-dates")
+	}
 	td := telemetry.NewDir(dir)
 	telemetry.Default = td
 	w := &world{dir: dir, local: td.LocalDir(), up: td.UploadDir(), progIDs: map[string]int{}, blobOf: map[[32]byte]int{},
@@ -347,7 +361,7 @@ func scenario() {
 	weekend := rnd.Intn(7)
 	os.WriteFile(filepath.Join(w.local, "weekends"), []byte(fmt.Sprintf("%d\n", weekend)), 0666)
 
-	modeOn := rnd.Chance(70)
+	modeOn := rnd.Chance(70) || datedDir
 	if tag == "c08" {
 		modeOn = rnd.Chance(95)
 	}
@@ -358,9 +372,12 @@ func scenario() {
 
 	// ---- count files written by the real library ----
 	base := time.Date(2024, 1, 1, 0, 0, 0, 0, time.UTC).Add(time.Duration(rnd.Intn(300)) * day)
+	if datedDir {
+		base = datedBase
+	}
 	nWeeks := 1 + rnd.Intn(3)
 	nProgs := 1 + rnd.Intn(3)
-	if sc.nthreads >= 2 && rnd.Chance(50) {
+	if (sc.nthreads >= 2 && rnd.Chance(50)) || datedDir {
 		nWeeks, nProgs = 1, 1+rnd.Intn(2)
 	}
 	if forced {
@@ -522,6 +539,9 @@ func scenario() {
 		addRaw(w.up, base.Add(-30*day).Format("2006-01-02")+".json", rawBody("old"))
 		upPresent = true
 		out.Note("pre-older-marker")
+	}
+	if datedDir {
+		addRaw(w.local, base.Add(-14*day).Format("2006-01-02")+".json", rawBody("o"))
 	}
 	if rnd.Chance(6) {
 		addRaw(w.local, "keep-"+wkR()+".json", rawBody("s"))
